@@ -197,6 +197,50 @@ fn shapes_job(ctx: &mut Ctx, res: &mut ShardResult) {
         }
         check_shape(&builds, &writes, &format!("{} interleaved records", n), json!({"index": idx}), &job, res);
     }
+    // (d) a record made unusable by a manifest edit (its output moved away),
+    //     of every size class, followed by records that must still load
+    for ndeps in [0usize, 1, 100, 2000, 2728, 2729, 3000, 6000, 20000] {
+        idx += 1;
+        if !go(idx) {
+            continue;
+        }
+        ctx.marker.set(idx, format!("unusable record with {} deps", ndeps).as_bytes());
+        res.evaluations += 1;
+        let old = vec![vec!["big".to_string(), "big2".to_string()], vec!["z1".to_string()], vec!["z2".to_string()]];
+        let new = vec![vec!["big".to_string()], vec!["z1".to_string()], vec!["z2".to_string()], vec!["big2".to_string()]];
+        let deps: Vec<String> = (0..ndeps).map(|i| format!("inc/h{}", i)).collect();
+        let db = fresh_db();
+        let label = format!("a record with {} dependencies whose outputs now belong to two steps, followed by two ordinary records", ndeps);
+        let r = catch(|| -> Result<Vec<(Option<u64>, Vec<String>)>, String> {
+            let mut s = DbSession::open(manifest_for(&old).as_bytes(), db).map_err(|e| format!("open: {}", e))?;
+            s.write(1, &["d1".to_string()], 11).map_err(|e| e.to_string())?;
+            s.write(0, &deps, 10).map_err(|e| e.to_string())?;
+            s.write(2, &["d2".to_string()], 12).map_err(|e| e.to_string())?;
+            s.write(1, &["d1".to_string(), "d3".to_string()], 13).map_err(|e| e.to_string())?;
+            drop(s);
+            let s2 = DbSession::open(manifest_for(&new).as_bytes(), db).map_err(|e| format!("reopen: {}", e))?;
+            Ok(s2.loaded())
+        });
+        let expected: Vec<(Option<u64>, Vec<String>)> = vec![
+            (None, vec![]),
+            (Some(13), vec!["d1".to_string(), "d3".to_string()]),
+            (Some(12), vec!["d2".to_string()]),
+            (None, vec![]),
+        ];
+        let replay = || json!({"job": job, "id": {"index": idx}, "label": label});
+        match r {
+            Err(p) => res.violation(&p.key(), || format!("{}: panicked: {} at {}", label, p.message, p.location), replay),
+            Ok(Err(e)) => res.violation("log-roundtrip-error", || format!("{}: {}", label, e), replay),
+            Ok(Ok(loaded)) => {
+                if loaded != expected {
+                    res.violation("unusable-record-disturbs-later-records", || format!("{}: loaded {:?}", label, loaded.iter().map(|l| (l.0, l.1.len())).collect::<Vec<_>>()), replay);
+                } else {
+                    res.nontrivial += 1;
+                    res.outcome("unusable-record-skipped");
+                }
+            }
+        }
+    }
     res.sample(|| json!({"shape": "outs 1..3 x deps {0,1,2,255,256,257,65535,65536,65537}; name lengths {1,2,127,128,255,256,1000,4095}"}));
 }
 
